@@ -72,3 +72,110 @@ theorem twin_bind_visOnly {α β : Type} {a b : M α} {f : α → M β}
   | error e => exact ⟨rfl, hv⟩
 
 end AsyncVerif
+
+namespace AsyncVerif
+
+/-- the loop body `compress` runs over `zip(data, selectors)` -/
+def compressK : List Val → M Unit := fun row =>
+  match row with
+  | [x, k] => if k.truthy then yieldV x else pure ()
+  | _ => pure ()
+
+/-- `zip` of two iterators followed by the selection is literally `compress_next`'s loop -/
+theorem zipLoop_eq_compressLoop (d sel : Nat) : ∀ (fuel : Nat) (w : World),
+    Std.zipLoop [d, sel] compressK fuel w = Std.compressLoop d sel fuel w := by
+  intro fuel
+  induction fuel with
+  | zero => intro w; rfl
+  | succ fuel ih =>
+    intro w
+    simp only [Std.zipLoop, Std.compressLoop, Std.zipRow, bind_apply, pure_apply]
+    rcases hd : pull d w with ⟨r, w1⟩
+    cases r with
+    | error e => rfl
+    | ok o =>
+      cases o with
+      | none => rfl
+      | some x =>
+        simp only [List.nil_append, bind_apply]
+        rcases hs : pull sel w1 with ⟨r2, w2⟩
+        cases r2 with
+        | error e => rfl
+        | ok o2 =>
+          cases o2 with
+          | none => rfl
+          | some k =>
+            simp only [pure_apply, List.cons_append, List.nil_append, compressK]
+            by_cases hk : k.truthy
+            · simp only [hk, if_true, bind_apply]
+              rcases hy : yieldV x w2 with ⟨r3, w3⟩
+              cases r3 with
+              | error e => rfl
+              | ok u => exact ih w3
+            · simp only [hk, Bool.false_eq_true, if_false, bind_apply, pure_apply]
+              exact ih w2
+
+end AsyncVerif
+
+namespace AsyncVerif
+
+/-- once started, `dropwhile_next` is a plain pass-through loop -/
+theorem dropwhileLoop_started (f s : Nat) : ∀ (fuel : Nat) (w : World),
+    Std.dropwhileLoop f s true fuel w = forEach s (fun x => do yieldV x; pure true) fuel w := by
+  intro fuel
+  induction fuel with
+  | zero => intro w; rfl
+  | succ fuel ih =>
+    intro w
+    simp only [Std.dropwhileLoop, forEach, bind_apply, pure_apply]
+    rcases hp : pull s w with ⟨r, w1⟩
+    cases r with
+    | error e => rfl
+    | ok o =>
+      cases o with
+      | none => rfl
+      | some x =>
+        simp only [if_true, bind_apply]
+        rcases hy : yieldV x w1 with ⟨r2, w2⟩
+        cases r2 with
+        | error e => rfl
+        | ok u => simp only [pure_apply, if_true]; exact ih w2
+
+/-- asyncstdlib's two loops over one iterator = CPython's single loop with the `start` flag -/
+theorem dropwhile_body_eq (f s : Nat) : ∀ (fuel : Nat) (w : World),
+    (do match ← Impl.dropPhase f s fuel with
+        | some rest => forEach s (fun x => do yieldV x; pure true) rest
+        | none => pure () : M Unit) w = Std.dropwhileLoop f s false fuel w := by
+  intro fuel
+  induction fuel with
+  | zero => intro w; rfl
+  | succ fuel ih =>
+    intro w
+    simp only [Impl.dropPhase, Std.dropwhileLoop, bind_apply, pure_apply]
+    rcases hp : pull s w with ⟨r, w1⟩
+    cases r with
+    | error e => rfl
+    | ok o =>
+      cases o with
+      | none => rfl
+      | some x =>
+        simp only [bind_apply, Bool.false_eq_true, if_false]
+        rcases hc : call f [x] w1 with ⟨r2, w2⟩
+        cases r2 with
+        | error e => rfl
+        | ok v =>
+          simp only
+          by_cases hv : v.truthy
+          · simp only [hv, if_true]
+            have := ih w2
+            simp only [bind_apply] at this
+            exact this
+          · simp only [hv, Bool.false_eq_true, if_false, bind_apply]
+            rcases hy : yieldV x w2 with ⟨r3, w3⟩
+            cases r3 with
+            | error e => rfl
+            | ok u =>
+              simp only [pure_apply]
+              exact (dropwhileLoop_started f s fuel w3).symm
+
+end AsyncVerif
